@@ -457,11 +457,29 @@ func c9part(f c9frag, circular bool, rot int) (clone.Part, bool) {
 
 func c9ggUnits(tier string) []mc.Unit {
 	var us []mc.Unit
-	for _, d := range [][]int{{1, 1}, {1, 1, 1}, {2, 1}, {1, 2, 1}} {
-		d := d
-		us = append(us, mc.Unit{Name: fmt.Sprintf("goldengate/design=%v", d), Serial: true, Weight: 40, Run: func(r *mc.Recorder) {
+	type ggDesign struct {
+		d     []int
+		decoy bool
+	}
+	// single-junction designs (every alternative closes on itself) and a dead-end decoy part are included:
+	// whatever GoldenGate does between digestion and ligation must neither lose nor add a plasmid
+	for _, gd := range []ggDesign{{[]int{1, 1}, false}, {[]int{1, 1, 1}, false}, {[]int{2, 1}, false}, {[]int{1, 2, 1}, false},
+		{[]int{1}, false}, {[]int{2}, false}, {[]int{3}, false}, {[]int{1}, true}, {[]int{2}, true}, {[]int{1, 1}, true}, {[]int{2, 1}, true}} {
+		d, decoy := gd.d, gd.decoy
+		name := fmt.Sprintf("goldengate/design=%v", d)
+		if decoy {
+			name += "+decoy"
+		}
+		us = append(us, mc.Unit{Name: name, Serial: true, Weight: 40, Run: func(r *mc.Recorder) {
 			base := c9design(d)
 			want := c9rings(base)
+			if decoy {
+				// forward overhang on the ring, reverse overhang nowhere: a dead end that joins no plasmid
+				base = append(base, c9frag{c9overhangs[0], "ACGGCA", "TTGC"})
+				if got := c9rings(base); setStr(got) != setStr(want) {
+					panic("generator self-check: the decoy changes the expected rings")
+				}
+			}
 			var cnt int64
 			// carriers: all linear; then each part circular at every 7th rotation
 			type variant struct {
@@ -504,7 +522,7 @@ func c9ggUnits(tier string) []mc.Unit {
 						r.Skip(1)
 						continue
 					}
-					cas := fmt.Sprintf("goldengate design=%v flipped=%b circular=%v rot=%d", d, mask, v.circ, v.rot)
+					cas := fmt.Sprintf("goldengate design=%v decoy=%v flipped=%b circular=%v rot=%d", d, decoy, mask, v.circ, v.rot)
 					once(func(c *mc.Ctx) {
 						var res []clone.Part
 						var err error
@@ -522,7 +540,7 @@ func c9ggUnits(tier string) []mc.Unit {
 			r.AddStates(cnt)
 			r.AddTransitions(cnt)
 			r.AddNontrivial(cnt)
-			r.Sample(fmt.Sprintf("GoldenGate(BsaI) on carriers of design %v (linear and circular at every 7th rotation, every orientation mask) -> %s", d, setStr(want)))
+			r.Sample(fmt.Sprintf("GoldenGate(BsaI) on carriers of design %v decoy=%v (linear and circular at every 7th rotation, every orientation mask) -> %s", d, decoy, setStr(want)))
 		}})
 	}
 	return us
